@@ -20,9 +20,9 @@ for d in seeded/${1:-*}/; do
   esac
   # first pass with the instrumented builds only; the full check (release-profile rerun,
   # shipping-build stages) only if that did not report it
-  res=$(GBMC_FAST=1 LINES_MAX=3 bin/try_patch.sh "$d/patch.diff" "$chk" 2>&1)
+  res=$(GBMC_FAST=1 LINES_MAX=8 bin/try_patch.sh "$d/patch.diff" "$chk" 2>&1)
   if ! echo "$res" | grep -q "^VIOLATION property=$chk"; then
-    res=$(LINES_MAX=3 bin/try_patch.sh "$d/patch.diff" "$chk" 2>&1)
+    res=$(LINES_MAX=8 bin/try_patch.sh "$d/patch.diff" "$chk" 2>&1)
   fi
   if echo "$res" | grep -q "^VIOLATION property=$chk"; then v=caught; elif echo "$res" | grep -q "^OK $chk"; then v=MISSED; else v=error; fi
   key=$(echo "$res" | grep -m1 "^  key:" | sed 's/^  key: //')
